@@ -21,3 +21,22 @@ class TableNet(torch.nn.Module):
         if self.blur > 0:
             logits = torch.nn.functional.avg_pool1d(logits, 2 * self.blur + 1, 1, self.blur, False, True)
         return logits
+
+
+class TableNetEmb(torch.nn.Module):
+    """TableNet with a writer/style embedding input: class (id mod (C-1)) gets +8 at every frame, so the output
+    depends on the embedding id the engine passes along with the batch."""
+
+    def __init__(self, n_classes: int, n_embed: int):
+        super().__init__()
+        self.n_classes = n_classes
+        bias = torch.zeros(1, n_classes, 1)
+        bias[0, n_classes - 1, 0] = 0.02
+        self.register_buffer("bias", bias)
+        self.embeddings_layer = torch.nn.Embedding(n_embed, 2)
+
+    def forward(self, x: torch.Tensor, ids: torch.Tensor) -> torch.Tensor:
+        v = x[:, 0, :self.n_classes, ::4]
+        logits = v * 20.0 - 10.0 + self.bias
+        hot = torch.nn.functional.one_hot(ids % (self.n_classes - 1), self.n_classes).to(logits.dtype)
+        return logits + 8.0 * hot.unsqueeze(2)
